@@ -1,7 +1,7 @@
 (** Property C07 — 1-D MOC serialisation round-trips.  Statements only. *)
 From Coq Require Import List NArith Permutation Sorted.
 From MOC.Base Require Import RangeSet.
-From MOC.Model Require Import Qty Query Build Repr Serial CellsSM Adapters AsciiCodec AsciiProofs AsciiStreamProofs AsciiMoc FitsCodec FitsProofs.
+From MOC.Model Require Import Qty Query Build Repr Serial CellsSM Adapters AsciiCodec AsciiProofs AsciiStreamProofs AsciiMoc FitsCodec FitsProofs FitsStProofs.
 Import ListNotations.
 Open Scope N_scope.
 
@@ -124,6 +124,18 @@ Theorem C07_fits_naxis2_card : forall n, n < 2 ^ 64 ->
   check_kw_uint 64 (mand_record naxis2_kw n) naxis2_expected = Datatypes.inr n.
 Proof. exact naxis2_card_named. Qed.
 
+(** NUNIQ (hpx_cells_to_fits_ivoa / from_fits_nuniq as written): the reader takes the SPACE / NUNIQ branch and
+    returns the cells written, bucketed by depth by the writer and sorted by the reader *)
+Theorem C07_fits_nuniq_file_roundtrip : forall w d cells, okw w -> d <= max_depth Hpx w ->
+  Forall (cell_ok w d) cells -> N.of_nat (List.length cells) < 2 ^ 64 ->
+  fits_read (fits_write_nuniq w d cells) = FOk LSNuniq w d 0 (DCells (fold_right insert_c [] (regroupc d cells))).
+Proof. exact fits_nuniq_file_roundtrip. Qed.
+
+Theorem C07_fits_nuniq_cells_back : forall d cells, Forall (fun c : cell => fst c <= d) cells ->
+  Permutation (fold_right insert_c [] (regroupc d cells)) cells /\
+  Sorted (fun a b => cell_low Hpx a b = true) (fold_right insert_c [] (regroupc d cells)).
+Proof. exact nuniq_cells_sorted_permutation. Qed.
+
 Example C07_nonvacuous :
   encode_rows 2 [(1, 258); (1024, 12288)] = [0; 1; 1; 2; 4; 0; 48; 0] /\
   decode_rows 2 2 [0; 1; 1; 2; 4; 0; 48; 0] = [(1, 258); (1024, 12288)] /\
@@ -163,3 +175,5 @@ Print Assumptions C07_ascii_stream_moc_roundtrip.
 Print Assumptions C07_fits_file_roundtrip.
 Print Assumptions C07_fits_file_blocks.
 Print Assumptions C07_fits_naxis2_card.
+Print Assumptions C07_fits_nuniq_file_roundtrip.
+Print Assumptions C07_fits_nuniq_cells_back.
